@@ -52,7 +52,12 @@ class Cases:
                 return None
             req = lr[1]
         PinnedDT.pinned = now
-        r = vlib.run_impl(validate_request, req, pol)
+        self.n_judged = getattr(self, "n_judged", 0) + 1
+        if self.n_judged % 4 == 3:
+            with vlib.debug_logging():          # every fourth request is judged as the tools' --debug switch would have it: the verdict does not depend on what is logged
+                r = vlib.run_impl(validate_request, req, pol)
+        else:
+            r = vlib.run_impl(validate_request, req, pol)
         acc = r[0] == "ok"
         self.accepts += acc
         want = specs.validate(now, pol, req)
